@@ -295,9 +295,46 @@ def run_mean(case):
     return ck.results()
 
 
+@st.composite
+def xyz_case(draw):
+    comp = st.one_of(st.sampled_from([0.0, 0.0, 1.0, -1.0]), _f(-1.0, 1.0), small_exp, small_exp.map(lambda e: -e))
+    v = [draw(comp), draw(comp), draw(comp)]
+    scale = draw(st.sampled_from([1.0, 1.0, 2.5, 1e-3]))
+    return {"xyz": [c * scale for c in v]}
+
+
+def run_xyz(case):
+    from yaw.coordinates import AngularCoordinates
+
+    m = mp()
+    x, y, z = case["xyz"]
+    norm = math.sqrt(x * x + y * y + z * z)
+    if norm < 1e-12:
+        from vlib.runner import Result
+
+        return Result.discard("zero-vector")
+    on_axis = (y == 0.0) or (x == 0.0 and y == 0.0)
+    ck = Checker(on_axis or abs(z) / norm > 1 - 1e-12, classes=["y==0" if y == 0.0 else "generic", "x<0,y==0" if (y == 0.0 and x < 0) else "other"])
+    ok, c = ck.call(lambda: AngularCoordinates.from_3d(np.array([[x, y, z]])), "from_3d(xyz)")
+    if not ok:
+        return ck.results()
+    ra, dec = float(c.ra[0]), float(c.dec[0])
+    ck.expect(0.0 <= ra < TWO_PI, "from_3d(xyz):ra-not-in-[0,2pi)", repr(ra))
+    ref_dec = m.asin(m.mpf(z) / m.sqrt(m.mpf(x) ** 2 + m.mpf(y) ** 2 + m.mpf(z) ** 2))
+    ck.expect(abs(m.mpf(dec) - ref_dec) <= 4e-8, "from_3d(xyz):dec", f"{dec!r} vs {float(ref_dec)!r}")
+    rxy = math.hypot(x, y)
+    if rxy / norm > 1e-6:
+        ref_ra = m.atan2(m.mpf(y), m.mpf(x)) % (2 * m.pi)
+        d = abs(m.mpf(ra) - ref_ra)
+        d = min(d, 2 * m.pi - d)
+        ck.expect(d <= 4e-8, "from_3d(xyz):ra", f"xyz={case['xyz']}: ra={ra!r}, exact {float(ref_ra)!r}")
+    return ck.results()
+
+
 def components():
     return [
-        Component("pairs", pair_case(), run_pair, quick=12_000, thorough=600_000),
+        Component("pairs", pair_case(), run_pair, quick=30_000, thorough=600_000),
         Component("distances", dist_case(), run_dist, quick=4_000, thorough=200_000),
         Component("mean", mean_case(), run_mean, quick=3_000, thorough=100_000),
+        Component("from_xyz", xyz_case(), run_xyz, quick=3_000, thorough=100_000),
     ]
